@@ -82,6 +82,7 @@ Proof.
   intros. eexists. split; [reflexivity|]. intros start rep. cbv beta.
   apply NO_Now. intros stop. destruct rep as [|r]; [apply NO_Ret|].
   apply NO_GetEntry. intros own. destruct own as [own|]; [|apply NO_Ret].
+  destruct (_ && _); [apply NO_Ret|].
   unfold get_refs_clean. apply NO_GetRefs. intros ans.
   apply NoOrigin_bind; [apply hvr_noorigin|intros; apply NO_Ret].
 Qed.
